@@ -563,6 +563,10 @@ def walker_rules(run):
                             for v, tg in tt["targets"]:
                                 if vs.get(v) == "Symbol":
                                     arm = (b, tg)
+            if ok and arm is not None and any(not f.dominates(ib, arm[0]) for ib, _, _ in init):
+                ok = False
+                why = "the context is set back to the global one while walking (at %s), not only before the first node: a dotted name after that point would lose its enclosing labels" % ", ".join(
+                    f.loc((ist.get("span") if isinstance(ist, dict) else None)) for ib, ist, _ in init if not f.dominates(ib, arm[0]))
             if ok and arm is not None:
                 sb, entry = arm
                 ok = f.dominates(entry, ub) or entry == ub
